@@ -443,6 +443,14 @@ func (r *Run) Finish(verifDir string, meta Meta, started time.Time) int {
 		}
 		return r.Obs[i].Key < r.Obs[j].Key
 	})
+	if f := os.Getenv("PCHECK_DUMPOBS"); f != "" { // debugging aid: every obligation, one per line
+		if w, err := os.Create(f); err == nil {
+			for _, o := range r.Obs {
+				fmt.Fprintf(w, "%s|%s|%s\n", o.Rule, o.Key, o.St)
+			}
+			w.Close()
+		}
+	}
 	counts := map[string]int{}
 	perRule := map[string]map[string]int{}
 	var viol []*Obligation
